@@ -52,6 +52,8 @@ def r1_search(m):
         if not brk:
             why.append("the search does not stop at the first existing file (a later directory would win)")
         r.fail("next|search|%s" % ";".join(w.split()[0] + w.split()[-1] for w in why), "FortranReaderBase.next: " + "; ".join(why), m.loc(nx, lp))
+    if cand is None:
+        return r          # the shape of the search changed: the remaining clauses are keyed on the candidate path variable
     # after the loop: unresolved -> the item itself is returned
     r.instances += 1
     unresolved = False
